@@ -262,6 +262,38 @@ func c38(r *core.Run) {
 		r.Floor("C38.G1", "connectedPeers.Add sites", n, 1)
 	}
 
+	// F2: a disconnected peer is swept out of the connected/kept lists of EVERY group: the
+	// peer-state handler must call Group.remove for the groups returned by getGroupAll —
+	// any narrower index (per-peer group registrations) misses peers that joined a group
+	// through another path (notify/observe), which then stay "connected" although they are
+	// no longer neighbours.
+	if start := w.Func("pkg/multicast", "(*Service).Start"); start == nil {
+		r.Fatal("unresolved anchor pkg/multicast.(*Service).Start")
+	} else {
+		n := 0
+		for _, fn := range core.WithClosures(start) {
+			for _, c := range core.Calls(fn, "(*pkg/multicast.Group).remove") {
+				args := core.Common(c).Args
+				fromEvent := core.DerivesFrom(args[1], func(x ssa.Value) bool {
+					return strings.HasSuffix(core.TypeName(x.Type()), "p2p.PeerInfo")
+				}, nil)
+				if !fromEvent {
+					continue
+				}
+				n++
+				r.Saw(core.FuncName(fn))
+				r.Eval(core.EdgeCount(fn))
+				all := core.DerivesFrom(args[0], func(x ssa.Value) bool {
+					cc, _ := core.CallOf(x)
+					return cc != nil && core.IsCallTo(cc, "(*pkg/multicast.Service).getGroupAll")
+				}, nil)
+				r.Check("C38.F2", lsKey("C38.F2", fn, "disconnect sweeps every group"), c.Pos(), all,
+					"when a peer disconnects it is removed from the connected/kept lists of every group", "the disconnect handler removes the peer only from a subset of the groups (not the result of getGroupAll): a peer that entered a group by another path stays listed as connected after it is gone")
+			}
+		}
+		r.Floor("C38.F2", "Group.remove calls driven by peer-state events", n, 1)
+	}
+
 	// G2 de-duplication
 	for _, row := range []struct{ fn, prefix string }{{"(*Service).Multicast", "Multicast_"}, {"(*Service).onMulticast", "onMulticast_"}} {
 		fn := w.Func("pkg/multicast", row.fn)
